@@ -83,9 +83,15 @@ class Monitor:
             # C08 at the coordinator level: when the reset task resets the game (consensus reached, requests withdrawn), the world
             # is exactly the pristine world again, whoever acted or left before
             if prev["agents"] and all(v[3] for v in prev["agents"].values()) and now["agents"] and not any(v[3] for v in now["agents"].values()):
-                w = self.world_snapshot()
-                if self.cfg["env"].get("use_dynamic_addresses"):
-                    w = None                    # re-labelled at every reset: the world-level statement is C13's
+                w = self.world_snapshot()           # under dynamic addresses: read back through the published address map
+                # the fresh views are views of THIS world: the hosts an agent controls after the reset exist in it
+                addrs = {str(k) for k in g._ip_to_hostname}
+                for a in g.agents:
+                    stv = g._agent_states.get(a)
+                    if stv is not None:
+                        gone = sorted(str(h) for h in stv.controlled_hosts if str(h) not in addrs)
+                        if gone:
+                            self.hit(["C07", "C13"], "fresh view names hosts that do not exist", f"after the collective reset an agent's initial view controls {gone}, addresses that do not exist in the (re-labelled) network")
                 if w is not None and self.world0 is not None and w != self.world0:
                     diff = [k for k in w if w[k] != self.world0[k]]
                     self.hit(["C08", "C07"], "world not restored by the reset task", f"after the collective reset the world tables {diff} differ from their initial condition")
@@ -111,9 +117,12 @@ class Monitor:
     def world_snapshot(self):
         g = self.S.g
         try:
+            # current address -> the scenario's address (identity with static addresses)
+            back = {str(cur): str(orig) for orig, cur in getattr(g, "_ip_mapping", {}).items()}
+            tr = lambda x: back.get(str(x), str(x))
             return {"data": {str(k): sorted(repr(d) for d in v) for k, v in g._data.items()},
-                    "firewall": {str(k): sorted(str(x) for x in v) for k, v in g._firewall.items()},
-                    "blocks": {str(k): sorted(str(x) for x in v) for k, v in g._fw_blocks.items() if v}}
+                    "firewall": {tr(k): sorted(tr(x) for x in v) for k, v in g._firewall.items()},
+                    "blocks": {tr(k): sorted(tr(x) for x in v) for k, v in g._fw_blocks.items() if v}}
         except Exception:
             return None
 
@@ -375,7 +384,7 @@ def instrument(S, cfg, CR, goals):
     return M
 
 
-def run_sessions(ctx, prop, n_sessions, gen_opts, cfg_opts=None, extra_monitor=None, n_directed=26):
+def run_sessions(ctx, prop, n_sessions, gen_opts, cfg_opts=None, extra_monitor=None, n_directed=30):
     """Generate sessions, follow them with the model, collect this property's monitor hits."""
     CG, CR, nsgenv = _imports()
     rng0 = random.Random(ctx.seed * 104729 + int(prop[1:]))
